@@ -37,6 +37,8 @@ bool in_child();           // true inside an execution
 uint32_t block_of(const void* p); // allocation sequence number of the heap block containing p (0 = not heap)
 void track_thread();       // must be called first thing in body (done by the runtime wrapper)
 bool weak_mode();
+// step-level traces: values that point into [base, base + count*elem) are logged as firstid + index (b = -2)
+void name_range(const void* base, size_t elem, size_t count, long firstid);
 void dump_alloc_sites();   // emits one "ev" record per distinct caller of operator new: op = "allocsite:<pc>", a = count
 
 // Parses the standard command line and explores.  `make(prog)` builds the scenario for a program
